@@ -269,6 +269,9 @@ def run(repo: Repo, rep: Report, tier: str) -> None:
                 # alternatives of a branch this configuration does not decide: which one runs is unknown, so no verdict
                 rep.undecided("LLR-SCALE", fi, construct, "control-flow alternatives scale differently with the noise variance and the branch condition is not decided: " + dg1.mixed[0], node=r)
                 continue
+            if v.d is None and dg1.softmin:
+                rep.violation("LLR-SCALE", fi, construct, "the per-subset metric is a soft minimum over the candidate points of distance / noise_var: " + dg1.softmin[0] + " - that is the exact log-MAP value, not the max-log LLR: noise_var * LLR depends on the noise variance (the soft minimum equals the hard one only for a single candidate), so the output is not a fixed multiple of (min d1 - min d0) / noise_var", trace=dg1.softmin[:3], node=r)
+                continue
             if v.d is None:
                 rep.undecided("LLR-SCALE", fi, construct, "degree in the noise variance not derived", trace=dg1.notes[:4], node=r)
                 continue
